@@ -433,8 +433,36 @@ def C32(ctx):
             e["pos"], e["mask"], e["shape"], "prepare panicked" if e["panic"] else
             "still preparable but not canonical or with an unchanged top identifier"), {"event": e})
     ctx.sample({"byte_event": next(e for e in evs if e["prepared"])})
+
+    # T (both tiers, no seed, never sampled): byte-level NON-CANONICAL V2 payloads - a duplicated child specifier in a
+    # subintent, in the transaction intent core and in a non-root subintent of a notarized transaction, the same
+    # subintent listed twice - with the canonical neighbours; every payload and every pair inside a group is decided by
+    # TraceTxHashes (NonCanonOk: prepare accepts => decode accepts and re-encoding gives the same bytes; PairOk: two
+    # different accepted payloads never prepare to equal content)
+    rc, out = vh(BIN, ["hashes", "noncanon"])
+    nc = [json.loads(l) for l in out.splitlines() if l.strip()]
+    payloads = [e for e in nc if e["a"] == "noncanon"]
+    crafted = collections.Counter(e["kind"] for e in payloads if "(crafted)" in e["payload"])
+    if crafted["subintent"] < 4 or crafted["notarized_v2"] < 3 or sum(1 for e in nc if e["a"] == "pair") < 40 \
+            or sum(1 for e in payloads if e["prepared"] and e["decoded"] and e["roundtrip"]) < 8:
+        raise ToolError("non-canonical payload family incomplete: %s" % dict(crafted))
+    nc_fake = [dict(payloads[0], prepared=True, decoded=False, roundtrip=False),
+               dict(next(e for e in nc if e["a"] == "pair"), both_prepared=True, same_bytes=False, same_content=True)]
+    bad_nc = validate_calls("TxHashes", "TraceTxHashes", nc + nc_fake, ctx.pid + "-noncanon", chunks=1)
+    if [i for i in bad_nc if i >= len(nc)] != [len(nc), len(nc) + 1]:
+        raise ToolError("binding self-test of TraceTxHashes failed: corrupted non-canonical events not rejected")
+    ctx.cov["evaluations"] += len(nc)
+    for i in [i for i in bad_nc if i < len(nc)]:
+        e = nc[i]
+        if e["a"] == "noncanon":
+            ctx.violation("hashes:noncanonical:%s" % e["kind"], "the %s payload %s is prepared (identifier %s) although it %s" % (
+                e["kind"], e["payload"], e["id"][:16], "panicked" if e["panic"] else "is not the canonical encoding of what it decodes to"), {"event": e})
+        else:
+            ctx.violation("hashes:noncanonical:two identifiers for one content", "the different payloads %s and %s both prepare, to the same content" % (e["x"], e["y"]), {"event": e})
+    ctx.sample({"noncanonical_payload": next(e for e in payloads if "(crafted)" in e["payload"])})
     distinct = len({json.dumps({k: v for k, v in c.items() if k not in ("affected", "accept", "law")}, sort_keys=True) for c in cases})
     return {"exhaustive": True, "distinct_nontrivial": distinct, "prepare_errors": perr, "byte_events": len(evs),
+            "noncanonical_payloads": {e["payload"]: ("prepared" if e["prepared"] else e["prepare_error"]) for e in payloads},
             "byte_changes_still_preparable": sum(1 for e in evs if e["prepared"]),
             "rule": "TLC enumerates 13 transaction shapes (V1, V2 with 0..3 subintents flat / chain / tree, partial transactions, "
                     "ledger-wrapped V1 / V2) x every field (7 / 6+3 header leaves, first and last instruction and blob, message, every "
@@ -442,7 +470,10 @@ def C32(ctx):
                     "field + stored child hashes brought up to date) and 58 payload deviations (prefix, discriminator, trailing byte, "
                     "non-minimal size, field count, blob / children / subintent / signature-batch counts and payload length at and over "
                     "the limit, V2 not permitted) over 4 payload kinds; each executed on real transactions through to_raw + prepare; "
-                    "plus every single-byte change (%s) of the raw payloads of 6 shapes decided by TraceTxHashes; distinct = distinct cases"
+                    "plus every single-byte change (%s) of the raw payloads of 6 shapes decided by TraceTxHashes; plus the byte-level "
+                    "non-canonical V2 family (children [h,h], [h,h,h3], [h,h3,h], [h,h,h] in a subintent, in the transaction intent core "
+                    "and in a non-root subintent, a subintent listed twice) with canonical neighbours and all pairs per group (NonCanonOk, "
+                    "PairOk); distinct = distinct cases"
                     % ("xor 1" if q else "xor 1 / 128 / 255, 2 seeds")}
 
 
